@@ -87,6 +87,10 @@ func zzC12_handshake() {
 	retrans := vLen("retransmits", 0, vParam("R", 1))
 	cli := zzClient(st, retrans, false)
 	t := zzNewTransport("198.51.100.7:3868")
+	if zzFlag("slowFirstWrite") {
+		// the transport takes one and a half intervals to accept the first CER
+		t.slowWrites, t.writeDelay = 1, zzTickD+zzTickD/2
+	}
 	var conn diam.Conn
 	var herr error
 	done := false
@@ -95,6 +99,10 @@ func zzC12_handshake() {
 		done = true
 	}()
 	vQuiesce()
+	for len(t.written) == 0 && !done && vPendingTimers() > 0 {
+		vAdvance()
+		vQuiesce()
+	}
 	gotAcceptable := false
 	disconnected := false
 	seen := 0
@@ -143,6 +151,9 @@ func zzC12_handshake() {
 	vAssert(len(t.written) <= retrans+1, "at most MaxRetransmits+1 transmissions of the CER")
 	for i := 1; i < len(t.times); i++ {
 		vAssert(t.times[i]-t.times[i-1] >= int64(zzTickD), "retransmissions are spaced at least RetransmitInterval apart")
+	}
+	if herr == ErrHandshakeTimeout && len(t.times) > 0 {
+		vAssert(vNow()-t.times[len(t.times)-1] >= int64(zzTickD), "the handshake does not time out before RetransmitInterval has passed since the last transmission")
 	}
 	vAssert((conn != nil && herr == nil) == gotAcceptable, "a usable connection is returned exactly when a success CEA sharing an application arrived in time")
 	if !gotAcceptable {
